@@ -506,7 +506,7 @@ struct TreeH : Harness<TreeObs, true>
 
   // build the tree given by a parent array (par[root] = -1) over labels lab[i];
   // nodes are created in label order so that label = graph id
-  void build(const std::vector<int>& par, const std::vector<unsigned>& lab, vt::Rng& rng, bool withObjs)
+  void build(const std::vector<int>& par, const std::vector<unsigned>& lab, vt::Rng& rng, bool withObjs, bool unrooted = false)
   {
     size_t n = par.size();
     unsigned rootLab = 0;
@@ -536,16 +536,22 @@ struct TreeH : Harness<TreeObs, true>
         rootSet = true;
       }
       long o = (withObjs && rng.chance(1, 2)) ? freeObj() : 0;
+      unsigned ea = e.first, eb = e.second;
+      if (unrooted && rng.coin()) std::swap(ea, eb); // no orientation yet
       switch (rng.below(3))
       {
       case 0:
-        addSon(e.first, e.second, (F.eobj ? o : 0));
+        addSon(ea, eb, (F.eobj ? o : 0));
         break;
       case 1:
-        setFather(e.second, e.first, (F.eobj ? o : 0));
-        break;
+        if (!unrooted)
+        {
+          setFather(eb, ea, (F.eobj ? o : 0));
+          break;
+        }
+      // fall through: setFather is for rooted trees
       default:
-        link(e.first, e.second, o);
+        link(ea, eb, o);
       }
       if (rng.chance(1, 6)) qValid(); // query in the middle of the construction (fills the cache)
     }
@@ -712,10 +718,11 @@ static void modeShapes(size_t maxn, vt::Rng& rng)
     for (auto& par : rootedShapes(n))
     {
       TreeH h;
-      h.reset(true);
-      h.build(par, randomLabels(n, rng), rng, true);
+      bool unrooted = F.unroot && rng.chance(1, 4); // built un-rooted, oriented by the first rootAt
+      h.reset(!unrooted);
+      h.build(par, randomLabels(n, rng), rng, true, unrooted);
       h.qValid();
-      h.battery(rng, true, 0);
+      if (!unrooted) h.battery(rng, true, 0);
       rerootings(h, rng, true, 0, 0);
     }
 }
@@ -739,10 +746,11 @@ static void modeRTrees(size_t count, size_t lo, size_t hi, vt::Rng& rng)
   {
     size_t n = lo + rng.below(hi - lo + 1);
     TreeH h;
-    h.reset(true);
-    h.build(randomParents(n, rng), randomLabels(n, rng), rng, true);
+    bool unrooted = F.unroot && rng.chance(1, 4);
+    h.reset(!unrooted);
+    h.build(randomParents(n, rng), randomLabels(n, rng), rng, true, unrooted);
     h.qValid();
-    h.battery(rng, false, 24);
+    if (!unrooted) h.battery(rng, false, 24);
     rerootings(h, rng, false, 3, 24);
   }
 }
@@ -753,13 +761,14 @@ static void modeHist(size_t count, size_t len, size_t maxNodes, vt::Rng& rng)
   for (size_t k = 0; k < count; ++k)
   {
     TreeH h;
-    h.reset(true);
+    bool unrooted = F.unroot && rng.chance(1, 4);
+    h.reset(!unrooted);
     size_t created = 0;
     // start from a small random tree half of the time
     if (rng.coin())
     {
       size_t n = 1 + rng.below(4);
-      h.build(randomParents(n, rng), randomLabels(n, rng), rng, true);
+      h.build(randomParents(n, rng), randomLabels(n, rng), rng, true, unrooted);
       created = n;
     }
     for (size_t step = 0; step < len; ++step)
